@@ -73,6 +73,7 @@ fn report_dec(vios: &mut VioSet, e: &Enc, sink: Sink, bytes: &[u8], cut: Option<
         Some(c) => vec![Call::new(&bytes[..c], c * 4 + 64, false).to_json(), Call::new(&bytes[c..], (bytes.len() - c) * 4 + 64, true).to_json()],
     };
     j.put("calls", J::Arr(calls));
+    j.put("loop", J::Bool(true));
     j.put("detail", J::obj().set("message", J::s(&msg)).set("stream", J::s(&hex(bytes))));
     vios.add(Violation { prop: "C09".into(), kind: kind.into(), msg, replay: j });
 }
@@ -120,6 +121,7 @@ fn report_enc(vios: &mut VioSet, e: &Enc, source: Source, units: &[u32], cap: Op
         .set("encoding", J::s(e.name))
         .set("source", J::s(if source == Source::Utf8 { "utf8" } else { "utf16" }))
         .set("sink", J::s("slice"))
+        .set("loop", J::Bool(true))
         .set("repl", J::Bool(true))
         .set("calls", J::Arr(vec![crate::xenc::ECallRec { units: units.to_vec(), cap: cap.unwrap_or(units.len() * 12 + 64), last: true, fill: 0, dalign: 0, fresh: true, method: 2 }.to_json()]))
         .set("detail", J::obj().set("message", J::s(&msg)));
